@@ -502,13 +502,45 @@ def check_C06(ctx, unit):
     # loops
     from .rules_parse import check_loop_progress
     for g in [f("first")] + ts[:1] + to[:1]:
-        def _desc(n):
-            if not (n.kind == "BinaryOperator" and n.op == "="):
-                return False
-            l, r = std_unwrap(n.children[0]), std_unwrap(n.children[1])
-            return l.kind == "DeclRefExpr" and r.is_call() and r.callee is not None and r.callee["n"] in ("get_left", "get_right") \
-                and bool(r.args) and std_unwrap(r.args[0]).kind == "DeclRefExpr" and std_unwrap(r.args[0]).d["d"] == l.d["d"]
-        check_loop_progress(ctx, "R.rb-loops", g, _desc)
+        check_loop_progress(ctx, "R.rb-loops", g, None)
+        # every value a loop assigns to its cursor variables is a child (get_left/get_right) of a cursor
+        # variable, possibly passed through another local of the loop: the walk only ever goes down
+        for nl in flow.natural_loops(g):
+            assigned = {}
+            for b in nl.body:
+                for n in g.blocks[b].nodes():
+                    tgt, rhs = None, None
+                    if n.kind == "BinaryOperator" and n.op == "=":
+                        tgt, rhs = n.children[0].strip(), n.children[1]
+                    elif n.kind == "DeclStmt":
+                        for d in n.get("decls", []):
+                            if "init" in d:
+                                assigned.setdefault(d["d"], []).append(g.node(d["init"]))
+                        continue
+                    if tgt is not None and tgt.kind == "DeclRefExpr" and tgt.get("local"):
+                        assigned.setdefault(tgt.d["d"], []).append(rhs)
+            # loop-header declarations (for-init) belong to the loop's variables as well
+            for d, init in RA.local_inits(g).items():
+                if d in assigned:
+                    assigned[d].append(init)
+            ptrs = {d for d in assigned}
+            bad = []
+            down = 0
+            for d, vals in assigned.items():
+                for v in vals:
+                    x = v.strip()
+                    while x.kind in ("ImplicitCastExpr", "CXXStaticCastExpr") and x.children:
+                        x = x.children[0].strip()
+                    if x.is_call() and x.callee and x.callee["n"] in ("get_left", "get_right", "get_root"):
+                        down += 1
+                        continue
+                    if x.kind == "DeclRefExpr" and (x.d["d"] in ptrs or x.get("dk") == "ParmVar"):
+                        continue
+                    if x.is_call() and x.callee and x.callee["n"] in ("get_parent", "predecessor", "successor"):
+                        bad.append("%s at %s moves the cursor up/sideways" % (_ids(canon(x)), x.loc))
+            if assigned:
+                ctx.inst("R.rb-loops", "%s: loop at block %d descends" % (g.sig, nl.header), not bad and down > 0, g.loc,
+                         "; ".join(bad) if bad else "%d cursor updates, all to a child" % down, g)
 
 
 # ---- C07 ------------------------------------------------------------------------------------------------
